@@ -605,6 +605,10 @@ def do_render(w: World, op: dict, t, twin):
 def check_tokens(out_text: str, d: dict, g: dict | None, env_g: dict) -> None:
     """R4 for concurrent steps: every token carries this caller's user/globals."""
     want_g = (g or {}).get("gv", env_g.get("gv", ""))
+    if isinstance(want_g, bool):
+        want_g = "true" if want_g else "false"
+    else:
+        want_g = str(want_g)
     for m in TOKEN_RE.finditer(out_text):
         u, gv, p = m.group(4), m.group(5), m.group(7)
         if u != d["user"] or p != d["user"]:
@@ -637,11 +641,14 @@ def do_par(w: World, op: dict):
         await park("fault:up")
         w.store.set_unavailable(False)
 
+    cancelled_targets: set[int] = set()
+
     async def canceller(i, tk, handles):
         await park("fault:cancel")
         h = handles.get(tk["target"])
         if h is not None and not h.done():
             h.cancel()
+            cancelled_targets.add(tk["target"])
             w.count("F8_cancel")
 
     async def batch():
@@ -776,6 +783,9 @@ def do_par(w: World, op: dict):
         if res[0] == "ok":
             check_tokens(res[1], tk["data"], tk.get("g"), w.cfg.get("env_globals") or {})
         if res[0] == "err" and res[1] == "CancelledError":
+            if i not in cancelled_targets:
+                # nobody cancelled this caller: another caller's cancellation reached it
+                raise Violation("spurious_cancellation", task=i, cancelled=sorted(cancelled_targets))
             w.count("cancelled_ops")
             continue
         if had_err or ambiguous:
@@ -1065,6 +1075,8 @@ def gen_plan(seed: int, tier: str) -> dict:
         r = rng.random()
         if r < 0.45:
             f["g"] = {"gv": rng.choice(["G1", "G2", "G3"])}
+            if rng.random() < 0.25:   # equal-but-different values: 1 == True == 1.0, 0 == False
+                f["g"] = {"gv": rng.choice([1, True, 1.0, 0, False, 0.0])}
         elif r < 0.55:
             f["g"] = {}
         if nskey and f.get("g") is not None and rng.random() < 0.3:
